@@ -293,6 +293,10 @@ type bmatch =
 
 val match_bracket : char list -> bmatch
 
+val sprefix : nat -> char list -> char list
+
+val matched_text : char list -> char list -> char list
+
 val omap : ('a1 -> 'a2) -> 'a1 outcome -> 'a2 outcome
 
 val resolve_index :
